@@ -14,7 +14,7 @@
    stream read into it (so that the current dimensions differ from the capacity); S = the stream under test.
    dbg = 1: overflow checks on; rk = 0 Cursor, 1 a reader that delivers 3 bytes per call (partial read_exact), 2 &[u8];
    model = 0: the model in force; 1: the repaired readers; 2: repaired readers + staged composites (used to test work/proposed_fixes against a patched tree).
-   oc / woc: 0 Ok, 1 Err, 2 panic (of the dump).  18011..18014 / 18031..18035 = single clauses of the oracle
+   oc / woc: 0 Ok, 1 Err, 2 panic (of the dump).  18011..18016 / 18031..18036 = single clauses of the oracle
    (same record), used by tools/props/c18.py to name the class of a failure. *)
 From PV Require Import Base.MachineInt Model.C18Serial.
 Open Scope Z_scope.
@@ -305,9 +305,9 @@ Definition run_dist (ps : list Z) : option (list (list Z)) :=
 
 Definition run_c18 (code : Z) (ps : list Z) (vs : list (list Z)) : option (list (list Z)) :=
   match code with
-  | 18001 | 18011 | 18012 | 18013 | 18014 => run_read ps vs
+  | 18001 | 18011 | 18012 | 18013 | 18014 | 18016 => run_read ps vs
   | 18002 => run_write ps vs
-  | 18003 | 18031 | 18032 | 18033 | 18034 | 18035 => run_roundtrip ps vs
+  | 18003 | 18031 | 18032 | 18033 | 18034 | 18035 | 18036 => run_roundtrip ps vs
   | 18004 => run_dist ps
   | _ => None
   end.
@@ -395,12 +395,36 @@ Definition shape_g (g : gobj) : list Z :=
   | GB b => shape_c (b_cbt b) ++ [match b_ksg b with Some _ => 1 | None => 0 end]
   end.
 
+(* metadata of the composite ITSELF: the fields in front of a key sequence (dist), the key counts, the Galois elements
+   of the automorphism keys, the presence of ks_glwe -- everything but the sub-keys.  The in-place composite readers
+   commit it last (6f8da98), so it is unchanged after Err even when sub-keys 0..k-1 have been replaced.
+   For the HAL types and the wrappers it is the whole metadata. *)
+Definition top_k (k : kseq) : list Z := meta_fields (k_pre k) ++ [7; Z.of_nat (length (k_keys k))].
+(* inside a CircuitBootstrappingKey / BDDKey the blind-rotation key is itself a sub-key: once it has been read
+   completely its dist is replaced with it.  `brk_done` = the stream holds a syntactically complete blind-rotation
+   key in front; when it does not, the read cannot have got past it and its dist must be unchanged as well. *)
+Definition top_c (brk_done : bool) (c : cbk) : list Z :=
+  (if brk_done then [] else meta_fields (k_pre (c_brk c))) ++
+  7 :: Z.of_nat (length (k_keys (c_brk c))) :: 8 :: Z.of_nat (length (c_atk c)) :: map fst (c_atk c) ++
+  [7; Z.of_nat (length (k_keys (c_tsk c)))].
+Definition top_meta (brk_done : bool) (g : gobj) : list Z :=
+  match g with
+  | GF _ | GW _ => meta g
+  | GK k => top_k k
+  | GC c => top_c brk_done c
+  | GB b => top_c brk_done (b_cbt b) ++ [match b_ksg b with Some _ => 9 | None => 10 end]
+  end.
+Definition brk_complete (s : bytes) : bool :=
+  match parse_kseq false [(10, FKDist)] s_gglwe s with Some _ => true | None => false end.
+
 (* clause selector: 0 = all, 1 = outcome + active bytes within the buffer, 2 = max_size within the buffer,
-   3 = metadata unchanged on Err, 4 = no zero radix / digit size accepted, 5 = round trip *)
-Definition clauses (sel : Z) (a b c d e : bool) : Z :=
-  if sel =? 0 then obz (a && b && c && d && e)
+   3 = metadata unchanged on Err, 4 = no zero radix / digit size accepted, 5 = round trip,
+   6 = metadata of the composite itself (top_meta) unchanged on Err: implied by 3, used to tell "sub-keys 0..k-1
+       replaced" (known) from "dist / counts changed" (never known) *)
+Definition clauses (sel : Z) (a b c d e t : bool) : Z :=
+  if sel =? 0 then obz (a && b && c && d && e && t)
   else if sel =? 1 then obz a else if sel =? 2 then obz (negb a || b) else if sel =? 3 then obz c
-  else if sel =? 4 then obz d else obz e.
+  else if sel =? 4 then obz d else if sel =? 5 then obz e else obz t.
 
 Definition oracle_read (sel : Z) (ps : list Z) (vs outs : list (list Z)) : Z :=
   match schema_of (p ps 2) with
@@ -424,7 +448,8 @@ Definition oracle_read (sel : Z) (ps : list Z) (vs outs : list (list Z)) : Z :=
           let b := match ga with Some g => inv_g caps g | None => false end in
           let c := negb (oc =? 1) || match ga with Some g => eq_list (meta g) (meta gb) | None => false end in
           let d := negb (oc =? 0) || match ga with Some g => valid_g g | None => false end in
-          clauses sel a b c d true
+          let t := negb (oc =? 1) || match ga with Some g => let bd := brk_complete (v vs 2) in eq_list (top_meta bd g) (top_meta bd gb) | None => false end in
+          clauses sel a b c d true t
       end
     end
   end.
@@ -452,7 +477,11 @@ Definition oracle_roundtrip (sel : Z) (ps : list Z) (vs outs : list (list Z)) : 
           let d := negb (oc =? 0) || match ga with Some g => valid_g g | None => false end in
           let e := if fits then (oc =? 0) && match ga with Some g => eq_list (logical g) (logical x) | None => false end
                    else (oc =? 1) in
-          clauses sel a b true d e
+          (* the receiver before the call is known when nothing was read into it first: r0 *)
+          let known_before := negb (b2 (p ps 5)) in
+          let c := negb known_before || negb (oc =? 1) || match ga with Some g => eq_list (meta g) (meta r0) | None => false end in
+          let t := negb known_before || negb (oc =? 1) || match ga with Some g => let bd := brk_complete (v outs 1) in eq_list (top_meta bd g) (top_meta bd r0) | None => false end in
+          clauses sel a b c d e t
       end
     | _, _ => 2
     end
@@ -485,11 +514,12 @@ Definition oracle_c18 (code : Z) (ps : list Z) (vs outs : list (list Z)) : Z :=
   | 18001 => oracle_read 0 ps vs outs
   | 18011 => oracle_read 1 ps vs outs | 18012 => oracle_read 2 ps vs outs
   | 18013 => oracle_read 3 ps vs outs | 18014 => oracle_read 4 ps vs outs
+  | 18016 => oracle_read 6 ps vs outs
   | 18002 => oracle_write ps vs outs
   | 18003 => oracle_roundtrip 0 ps vs outs
   | 18031 => oracle_roundtrip 1 ps vs outs | 18032 => oracle_roundtrip 2 ps vs outs
   | 18033 => oracle_roundtrip 3 ps vs outs | 18034 => oracle_roundtrip 4 ps vs outs
-  | 18035 => oracle_roundtrip 5 ps vs outs
+  | 18035 => oracle_roundtrip 5 ps vs outs | 18036 => oracle_roundtrip 6 ps vs outs
   | 18004 => oracle_dist ps outs
   | _ => 2
   end.
